@@ -160,7 +160,7 @@ func cmdCheck(args []string) int {
 		if *budget > 0 {
 			cfg.Deadline = time.Now().Add(*budget)
 		} else if *tier == "quick" {
-			cfg.Deadline = time.Now().Add(8 * time.Minute)
+			cfg.Deadline = time.Now().Add(12 * time.Minute)
 		} else {
 			mins := 15
 			if v, err := strconv.Atoi(os.Getenv("KSE_THOROUGH_MINUTES")); err == nil && v > 0 {
